@@ -69,7 +69,11 @@ def er_facts(F, S):
                 good = False
                 continue
             sides = inc[1][1:]
-            if not any(isinstance(s_, tuple) and s_[0] == "select" and s_[1] == post_b for s_ in sides):
+            # each scan runs over a slice of the ring and reads the element its own loop variable points at — a loop that keeps
+            # reading one fixed slot, or is not over the ring at all, is a detour in the chain of differences
+            iv_ = ("ivar", lay[3])
+            bnd_ = ex.ivar_bounds.get(iv_) or {}
+            if not any(isinstance(s_, tuple) and s_[0] == "select" and s_[1] == post_b and s_[2] == iv_ for s_ in sides) or bnd_.get("array") != ("self", buf):
                 good = False
             if not any(isinstance(s_, tuple) and s_[0] == "lv" for s_ in sides):
                 good = False
